@@ -135,6 +135,14 @@ CHECKS = {
                 note="the input space is explored by a mutation driver, not enumerated; TLA+ supplies the outcome rule and the "
                      "reset oracle",
                 technique="mutation driver + TLA+ trace validation (InkHostTrace rules Fault.panic / ResetA)"),
+    "C18": dict(level=EX, ref="5/C18",
+                text="Generated and corpus programs are played along explored histories in repeated create-play-drop cycles "
+                     "(plain, and with save / flow switch / load / reset inside) and with repeated reset / load on one instance; "
+                     "the harness logs the live bytes of a counting allocator at every measuring point and TLC validates the log "
+                     "against spec InkHeapTrace: after a warm-up repetition the level must not keep growing.",
+                note="the heap is not observable through the Story API: the TLA+ share is the rule over the logged counter; "
+                     "a single capacity step of a buffer is tolerated, sustained growth is not",
+                technique="counting allocator in the harness + TLA+ rule over the logged counter (InkHeapTrace)"),
 }
 
 NOT_YET = {}
@@ -166,7 +174,7 @@ def main():
         hooks=dict(guard="cargo feature verif-hooks (crate bladeink)",
                    enable="the harness crate /verif/harness depends on /repo/runtime with features=[\"verif-hooks\"]",
                    baseline_off_cmd="cd /repo && cargo test --workspace --no-fail-fast --offline",
-                   source_commits=["c266bd9"], add_only=True),
+                   source_commits=["c266bd9", "verif-hooks: relative-path audit (2 follow-up commits)"], add_only=True),
         engines=[dict(name="tla", path="/verif/spec", serves_properties=sorted(CHECKS),
                       kind_free_text="TLA+ specifications checked with TLC: design-level model checking, trace "
                                      "validation of runs recorded by the Rust harness /verif/harness (inkdrive), "
